@@ -182,8 +182,9 @@ pub fn judge(text: &str, v: &mut Verdict) {
     Parsed9::Report(r) => {
       v.label("outcome:report");
       v.label(format!("errors:{}", match r.1.len() { 0 => "0", 1 => "1", 2..=5 => "2-5", 6..=10 => "6-10", _ => ">10" }));
-      let first = r.1.first().map(|c| norm_msg(&c.err_message)).unwrap_or_default();
-      v.key = Some(format!("report|{}|{}", first, r.1.len().min(12)));
+      // distinct key: the sequence of (normalised) error messages, i.e. which recovery paths ran and in which order
+      let msgs: Vec<String> = r.1.iter().take(6).map(|c| norm_msg(&c.err_message).chars().take(24).collect()).collect();
+      v.key = Some(format!("report|{}|{}", msgs.join(">"), r.1.len().min(12)));
       if r.0 != text { v.fail("C09|report-text-differs", "the report carries a text that is not the input"); return; }
       if r.1.is_empty() { v.fail("C09|empty-report", "error report without any error"); return; }
       let bounds = Bounds::of(text);
@@ -236,7 +237,7 @@ impl Prop for C09 {
      character prefixes of valid programs and documents; every suite snippet and .mec file unchanged}. Oracle: parse() under catch_unwind returns (no panic; budget overruns are counted, not judged), \
      the outcome is a tree or a ParserErrorReport carrying the input; every cause/annotation range of the report is initialised, lies inside the input (row exists, 1 <= col <= row length + 1), \
      is not reversed; TextFormatter::format_error prints it without panicking; a second parse of the same text from a different working directory gives the identical outcome. \
-     Non-trivial = the text is rejected or parsed with error placeholders; distinct key = (first error message, number of errors)."
+     Non-trivial = the text is rejected or parsed with error placeholders; distinct key = (sequence of the first six error messages, number of errors), i.e. which recovery paths ran in which order."
   }
   fn assumptions() -> Vec<String> { vec![
     "termination is decided only up to the 20 s per-case budget; overruns are counted as timeouts (exit 2 above 1 %), never as violations".into(),
